@@ -66,7 +66,7 @@ class _Prov:
 
     def __init__(self, repo: Repo, fi: FuncInfo):
         self.repo, self.fi, self.typer = repo, fi, Typer(repo, fi)
-        self.in_esc = fi.module.name.endswith("einsum_constructor")
+        self.in_esc = fi.module.name.startswith("photon_weave.extra.einsum_")
         self.cls = fi.cls.name if fi.cls else None
 
     def is_member_list(self, e: ast.AST, depth: int = 0) -> bool:
@@ -125,7 +125,7 @@ def ident_site(repo: Repo) -> List[Ob]:
     sites = 0
     for fi in repo.scan_functions():
         m = fi.module.name
-        if m not in STATE_MODULES and not m.endswith("einsum_constructor"):
+        if m not in STATE_MODULES and not m.startswith("photon_weave.extra.einsum_"):
             continue
         if fi.node.name in ("__eq__", "__repr__", "__hash__"):
             continue
